@@ -15,6 +15,8 @@ RULE = ("programs of 1-14 statements drawn model-guided over the public API (ops
         "(non-constant variables on both sides of the product); distinct by program digest. Plus a deterministic cell "
         "sweep: every (operation x operand-type combination) x a fixed pool of in/out-of-domain operands x guard modes "
         "(none, 0, 1, 1/0, 0/1, 0/0, 1/1).")
+RULE += " Extensions (seeded rounds 10-15): deterministic chains of operation pairs that undo or reuse each other (ir.chain_programs), histories in which a refused call is caught and the program carries on, the long-array histories of C15 (31-257 elements), the repository's runnable example programs."
+
 
 
 def quadratic(cons):
